@@ -117,6 +117,11 @@ def make_case(unit):
     sizes = [g.r.randint(2, 5) for _ in range(nparts)]
     facets = cases.random_facets(g, template, N, sizes=sizes, p_zero=0.25)
     cases.entangle_some(g, facets)
+    if g.chance(0.3):
+        from .c07 import _derive_items
+        for role, v in facets:
+            if role == "mr":
+                _derive_items(g, v)  # zz9-derived (fused) items with anchors of their own
     tr = {}
     if g.chance(0.6):
         cases.attach_insertions(g, facets, tr)
